@@ -77,10 +77,17 @@ def build_pool(specs):
     return pool
 
 
-def build_points(specs):
+def build_points(specs, exotic=None):
+    """exotic: {point index: {variable id: ['F', num, den] | ['D', text]}}: coordinates that are real numbers of a
+    type other than int / float (fractions.Fraction, decimal.Decimal), which the Point documentation admits"""
+    from fractions import Fraction
+    from decimal import Decimal
     pts = []
-    for s in specs:
+    for j, s in enumerate(specs):
         p, _ = sx.parse_point(sx.tokenize(s))
+        ov = (exotic or {}).get(str(j), {})
+        p = [(i, (Fraction(ov[str(i)][1], ov[str(i)][2]) if ov[str(i)][0] == 'F' else Decimal(ov[str(i)][1])) if str(i) in ov else v)
+             for i, v in p]
         pts.append(mkpoint(p))
     return pts
 
@@ -140,7 +147,7 @@ def occurring_names(o, seen=None):
 class World:
     def __init__(self, h):
         self.pool = build_pool(h['pool'])
-        self.points = build_points(h['points'])
+        self.points = build_points(h['points'], h.get('exotic'))
         self.slots = {}
         self.results = {}
 
@@ -156,7 +163,52 @@ class World:
             return outcome(lambda: LocatedDifferential(P[op[1]], pts[op[2]]), show_located)
         if k == 'norm':
             r = P[op[1]]._normalize()
+            self.results[('norm', len(self.results))] = r
             return ('WARN ' if CATCH.hit else '') + show_obj(r)
+        if k == 'reuse':
+            # an expression the library RETURNED earlier (as_expression, component, _normalize) becomes an operand of a
+            # new expression, which is simplified, differentiated and evaluated; the same is done with the same
+            # expression built from constructors only: an expression is what it is, wherever its nodes came from
+            rs = list(self.results.values())
+            if not rs:
+                return 'NOSLOT'
+            R, a, name, q = rs[op[1] % len(rs)], P[op[3]], sx.name_of(op[4]), pts[op[5]]
+
+            def mk(r_, a_):
+                sh = op[2]
+                if sh == 0:
+                    return X.Divide(a_, r_)
+                if sh == 1:
+                    return X.Minus(a_, X.Divide(a_, r_))          # a Newton step
+                if sh == 2:
+                    return X.Multiply(r_, a_, r_)
+                if sh == 3:
+                    return X.Add(r_, X.Negation(a_), r_)
+                if sh == 4:
+                    return X.Power(r_, a_)
+                if sh == 5:
+                    return X.Sine(r_)
+                return X.NthPower(X.Add(r_, a_), 2)
+
+            def answers(new):
+                CATCH.hit = False
+                out = [show_obj(new._normalize()),
+                       outcome(lambda: Partial(new, name, compute_early=True).at(q)),
+                       outcome(lambda: new.at(q)),
+                       outcome(lambda: Partial(new, name).at(q))]
+                return out, CATCH.hit
+            try:
+                used, w1 = answers(mk(R, a))
+                rebuilt, w2 = answers(mk(ir.build(ir.from_obj(R)), ir.build(ir.from_obj(a))))
+            except OverflowError:
+                return 'RANGE'
+            if w1 or w2:
+                return 'BUDGET'
+            if used != rebuilt:
+                k_ = [i_ for i_ in range(4) if used[i_] != rebuilt[i_]][0]
+                return 'PROVENANCE %s: with the returned object %s | built from constructors %s' % (
+                    ('normal form', 'early partial', 'value', 'late partial')[k_], used[k_][:160], rebuilt[k_][:160])
+            return 'REUSED ' + used[2]
         if k == 'mkpartial':
             S[op[1]] = Partial(P[op[2]], sx.name_of(op[3]), compute_early=bool(op[4]))
             return 'OK'
@@ -300,7 +352,7 @@ def run_history(h, fresh_oracle=True):
     if fresh_oracle:
         for i, op in enumerate(h['ops']):
             r = outs[i]
-            if r.startswith(('OK', 'NOSLOT')):
+            if r.startswith(('OK', 'NOSLOT')) or op[0] == 'reuse':     # a reuse operation carries its own comparison
                 continue
             reset_module_state()
             w2 = World(h)
@@ -308,8 +360,12 @@ def run_history(h, fresh_oracle=True):
             r2 = None
             try:
                 if s is not None:
+                    # a Partial / Derivative switches to its symbolic path at its first as_expression(): the earlier
+                    # operations on the same object are part of what the object IS.  A Differential has no such
+                    # switch (component() hands out a new Partial every time): only its construction is replayed
+                    only_mk = op[0] in ('dfat', 'dfcompat', 'dfcompexpr')
                     for prev in h['ops'][:i]:
-                        if slot_of(prev) == s:
+                        if slot_of(prev) == s and (not only_mk or prev[0] == 'mkdiff'):
                             try:
                                 w2.do(prev)
                             except Exception:  # noqa: BLE001
